@@ -61,14 +61,19 @@ static void build(size_t cap, bool shared, size_t ucap)
         for (int t = 0; t < 2; t++) {
                 struct cat_command *c = &a[3 + t];
                 c->name = xstr(t ? (pct ? "+Q%d" : "+Q") : (pct ? "+R%d" : "+R")); if (!t) { c->read = h_read; c->test = h_test; }
-                if (chance(50)) c->description = xstr(pct ? "r%sd 0-100%" : "rd");
+                if (chance(50)) c->description = xstr(pct ? "r%sd 0-100%" : chance(15) ? "" : "rd");      /* an empty description is still a description: the newline is part of the text */
         }
         unsigned nv = 1 + rn(3);
         struct cat_variable *v3 = w_vars(&a[3], nv), *v4 = w_vars(&a[4], nv);
         for (unsigned j = 0; j < nv; j++) {
                 v3[j].type = (cat_var_type)rn(5); v3[j].access = chance(70) ? CAT_VAR_ACCESS_READ_WRITE : CAT_VAR_ACCESS_READ_ONLY;
                 size_t sz = v3[j].type <= CAT_VAR_NUM_HEX ? (size_t[]){ 1, 2, 4 }[rn(3)] : 1 + rn(6);
-                uint8_t *d = w_vdata(&v3[j], sz); for (size_t b = 0; b < sz; b++) d[b] = (uint8_t)('a' + rn(26)); if (v3[j].type == CAT_VAR_BUF_STRING && chance(75)) d[rn((unsigned)sz)] = 0;      /* a quarter of the strings fill their storage completely: no NUL inside data_size */
+                uint8_t *d = w_vdata(&v3[j], sz); for (size_t b = 0; b < sz; b++) d[b] = (uint8_t)('a' + rn(26));
+                if (v3[j].type <= CAT_VAR_NUM_HEX && chance(40)) {      /* values at the edges of the type and around the powers of ten / sixteen (digit counts change there) */
+                        static const uint32_t e[] = { 0, 1, 9, 10, 99, 100, 999, 1000, 9999, 10000, 99999, 100000, 999999, 1000000, 9999999, 10000000, 99999999, 100000000, 999999999, 1000000000, 0x7fffffff, 0x80000000u, 0xffffffffu, 0xf, 0x10, 0xff, 0x100, 0xfff, 0x1000, 0xffff, 0x10000, 0xfffff, 0x100000, 0xffffff, 0x1000000, 0xfffffff, 0x10000000 };
+                        uint32_t x = e[rn(sizeof e / sizeof e[0])]; if (v3[j].type == CAT_VAR_INT_DEC && chance(50)) x = (uint32_t)(0u - x);
+                        memcpy(d, &x, sz);
+                } if (v3[j].type == CAT_VAR_BUF_STRING && chance(75)) d[rn((unsigned)sz)] = 0;      /* a quarter of the strings fill their storage completely: no NUL inside data_size */
                 v3[j].name = chance(50) ? (pct ? "n%u%" : chance(15) ? "measurement_interval_in_milliseconds_channel_0" : "n") : NULL;
                 v4[j] = v3[j];
         }
